@@ -265,7 +265,8 @@ def r19_6(ctx):
     def on_field(t, f):
         return bool(t["a"]) and mir.has_field(b.term_operand(t["a"][0]), f)
     stages = [
-        ("RID", stage_blocks(lambda p, t: p.endswith("HashMap::<K, V, S, A>::get") and on_field(t, "by_rid"))),
+        ("RID", stage_blocks(lambda p, t: (p.endswith("HashMap::<K, V, S, A>::get") and on_field(t, "by_rid")) or
+                             p.endswith("ListenerRegistry::by_rid_in_section"))),
         ("MID", stage_blocks(lambda p, t: p.endswith("ListenerRegistry::by_mid"))),
         ("SSRC", stage_blocks(lambda p, t: (p.endswith("HashMap::<K, V, S, A>::get") and on_field(t, "by_ssrc")) or
                               p.endswith("ListenerRegistry::by_ssrc_in_section"))),
@@ -510,8 +511,14 @@ def r19_10(ctx):
         r.violate(RECV, "route:ssrc-section-ignored", recv.where(bi),
                   "receive() routes by the SSRC table directly: a packet naming another media section (an unregistered MID) is handed to the "
                   "receiver its SSRC is bound to")
-    for fn in ("transports::rtp::ListenerRegistry::by_ssrc_in_section",
-               "transports::rtp::ListenerRegistry::unique_by_pt", "transports::rtp::ListenerRegistry::single_provisional"):
+    direct_rid = [bi for bi, t, p in recv.calls() if p and p.endswith("HashMap::<K, V, S, A>::get") and t["a"]
+                  and mir.has_field(recv.term_operand(t["a"][0]), "by_rid")]
+    for bi in direct_rid:
+        r.violate(RECV, "route:rid-section-ignored", recv.where(bi),
+                  "receive() routes by the RID table directly: RIDs are unique only within a media section - a packet naming section A with "
+                  "RID \"h\" is handed to section B's receiver of the same RID")
+    for fn in (["transports::rtp::ListenerRegistry::by_rid_in_section"] if not direct_rid else []) + list(("transports::rtp::ListenerRegistry::by_ssrc_in_section",
+               "transports::rtp::ListenerRegistry::unique_by_pt", "transports::rtp::ListenerRegistry::single_provisional")):
         fam = [nb for nb in ctx.facts.all_bodies() if nb.name == fn or nb.name.startswith(fn + "::{closure")]
         if not fam and fn.endswith("by_ssrc_in_section") and direct:
             continue        # reported above
